@@ -785,6 +785,18 @@ class _FileGroup:
     what happens otherwise."""
     pos = None
     lazy = False
+    one_extension = None        # the collection holds the entries of a single extension (this variable) of its group
+
+
+def _exactly_one(facts, name):
+    """Do the path facts say that collection `name` holds exactly one element?  len == 1, or (len <= 1 / len < 2) together with
+    non-empty (truthy, len > 0, len >= 1, len != 0)."""
+    ln_ = f'len({name})'
+    if ('eq', '1', ln_) in facts:
+        return True
+    upper = ('le', ln_, '1') in facts or ('lt', ln_, '2') in facts
+    lower = ('true', name) in facts or ('lt', '0', ln_) in facts or ('le', '1', ln_) in facts or ('ne', '0', ln_) in facts or ('true', ln_) in facts
+    return upper and lower
 
 
 class _LocateCtx:
@@ -835,10 +847,16 @@ class _LocateCtx:
 
     def error_sites(self, mname):
         """Raise statements reached when the number of matches in `mname` is not 1."""
-        atom = ('ne', '1', f'len({mname})')
-        out = [r for r in stmts_in(self.ln.body) if isinstance(r, ast.Raise) and atom in _facts(self.ln, self.gml[r])]
+        ln_ = f'len({mname})'
+        not_one = {('ne', '1', ln_)}
+        many = {('lt', '1', ln_), ('le', '2', ln_)}
+        none = {('false', mname), ('eq', '0', ln_), ('le', ln_, '0'), ('lt', ln_, '1'), ('false', ln_)}
+        cand = [(r, _facts(self.ln, self.gml[r])) for r in stmts_in(self.ln.body) if isinstance(r, ast.Raise)]
         for h, call in self._helper_calls(self.ln.body):
-            out += [r for (r, f) in self.helper_summary(h, call)[1] if atom in f]
+            cand += self.helper_summary(h, call)[1]
+        out = [r for (r, f) in cand if f & (not_one | many | none)]
+        # `!= 1` in one test, or the two sides (more than one / none) refused separately
+        self.errs_both_sides = any(f & not_one for (_, f) in cand) or (any(f & many for (_, f) in cand) and any(f & none for (_, f) in cand))
         return out
 
     # -- values that come in through parameters
@@ -929,7 +947,7 @@ class _LocateCtx:
             rep.require(len(items) == n_targets, f'{self.fi.name}: {lname} receives {len(items)} items but is unpacked into {n_targets} names')
         rep.require(k < len(items), f'{self.fi.name}: {lname} has no item {k}')
         for kind, arg, st in items[:k]:
-            if kind == 'extend' and not (isinstance(arg, ast.Name) and ('eq', '1', f'len({arg.id})') in self.facts_at(st)):
+            if kind == 'extend' and not (isinstance(arg, ast.Name) and _exactly_one(self.facts_at(st), arg.id)):
                 rep.add('R5', self.fi.site(st), 'every match set added to the list of files holds exactly one file (so the files keep their positions)', False,
                         expected=f'len({u(arg)}) == 1 established before {u(st)[:40]}', found=sorted(self.facts_at(st)), stmt=f'single [{label}: earlier item]')
                 return None
@@ -957,9 +975,18 @@ class _LocateCtx:
         # facts that say nothing about the entry and still hold where the file is taken are the context the collection was built
         # in, not a selection of entries
         gr.extra = [a for a in gr.extra if any(sym in str(x) for x in a[1:] for sym in (IDX, ELEM, RANK)) or a not in fa]
-        gr.single_ok = ('eq', '1', f'len({mname})') in fa
+        gr.single_ok = _exactly_one(fa, mname)
         gr.single_expected, gr.single_found = f'len({mname}) == 1 established before {u(take)[:40]}', sorted(fa)
-        gr.errs, gr.errs_complete = self.error_sites(mname), True
+        if gr.one_extension is not None and len(gr.sufs) > 1:
+            # the collection is one extension's share of the group: whatever is known about ITS size says nothing about the number of
+            # files of the kind, unless a fact about the other extensions' files is in sight (then the rule cannot combine them)
+            rep.require(not any('len(' in str(x) and mname not in str(x) for a_ in fa for x in a_[1:]),
+                        f'{where}: {mname} holds the files of one extension ({gr.one_extension} of {gr.sufs}); the path also knows sizes of other collections, which the rule cannot add up')
+            gr.single_ok = False
+            gr.single_expected = f'exactly one file with a suffix in {gr.sufs} (all extensions of the kind pooled)'
+            gr.single_found = [f'{mname} holds only the entries whose suffix == {gr.one_extension}, one extension of {gr.sufs} at a time; known: {sorted(fa)}']
+        gr.errs = self.error_sites(mname)
+        gr.errs_complete = self.errs_both_sides or not gr.errs
         return gr
 
     def group_of(self, rep, gr, sq, name):
@@ -973,6 +1000,11 @@ class _LocateCtx:
                 sufs = self.constant(px, f'suffix group of {name}')
                 rep.require(isinstance(sufs, (tuple, list, set, frozenset)) and all(isinstance(x, str) for x in sufs), f'{self.fi.name}: suffix group of {name} is not a collection of strings: {sufs!r}')
                 sufs = tuple(sufs)
+            elif a[0] == 'eq' and f'{ELEM}.suffix' in a[1:] and sufs is None and self.one_of_group(sq, a[2] if a[1] == f'{ELEM}.suffix' else a[1]) is not None:
+                # `entry.suffix == ext` inside `for ext in <extension group>`: the entries of ONE extension of the group
+                other = a[2] if a[1] == f'{ELEM}.suffix' else a[1]
+                sufs = tuple(self.one_of_group(sq, other))
+                gr.one_extension = other
             else:
                 extra.append(a)
         if sufs is None and any(a[0] == 'notin' and a[1] == f'{ELEM}.suffix' for a in sq.filt):
@@ -984,6 +1016,21 @@ class _LocateCtx:
         srcx, gr.wrapped = _strip_materialise(_subst(self.ln, sq.src_node, site_st))
         gr.src_text = u(self.outward(srcx))
         return True
+
+    def one_of_group(self, sq, text):
+        """When `text` names the variable of an enclosing `for <name> in <constant tuple of strings>` around the collection: that tuple."""
+        e_ = _parse_expr(text)
+        if not isinstance(e_, ast.Name):
+            return None
+        site_st = sq.site if isinstance(sq.site, ast.stmt) else enclosing_stmt(self.ln, sq.site, self.dl.pm)
+        d = reaching_def(self.ln, e_.id, site_st) if site_st is not None else None
+        if not (isinstance(d, ast.For) and isinstance(d.target, ast.Name) and d.target.id == e_.id):
+            return None
+        try:
+            vals = self.constant(d.iter, f'extension group iterated by {e_.id}')
+        except Undecided:
+            return None
+        return tuple(vals) if isinstance(vals, (tuple, list)) and vals and all(isinstance(x, str) for x in vals) else None
 
     def lazy_single(self, rep, gr, first, take, value, st, label):
         """`x = next(G, None)` with G a generator over the filtered directory entries: x is THE single match exactly when x is not
@@ -1723,6 +1770,33 @@ _LOADSET_OLD = "def load_genomeset(db_file: 'FilePath') -> tuple[Session, Refere
 _LOADSET_ALIAS = "def load_genomeset(db_file: 'FilePath') -> tuple[Session, ReferenceGenomeSet]:\n\treturn ReferenceDatabase.open_genomeset(db_file)\n"
 _LOCATE_DECO = "\t@classmethod\n\tdef locate_files(cls, path: 'FilePath') -> tuple[Path, Path]:\n"
 _OPEN_STATIC = "\t@staticmethod\n\tdef open_genomeset(db_file):\n\t\tsession = file_sessionmaker(db_file)()\n\t\tgset = only_genomeset(session)\n\t\treturn session, gset\n\n"
+_FIND_CALLS = "\t\tgenomes_file = _find_one(path, _GENOME_EXTS, 'genome database (.gdb or .db)')\n\t\tsignatures_file = _find_one(path, _SIGNATURE_EXTS, 'signature (.gs or .h5)')\n"
+_FIND_POOLED = _EXT_CONSTS + """def _find_one(directory, extensions, desc):
+\tfiles = sorted(directory.iterdir())
+\tmatches = [f for f in files if f.suffix in extensions]
+\tif len(matches) > 1:
+\t\traise DatabaseLoadError(f'Multiple {desc} files found in directory {directory}', directory=directory)
+\tif matches:
+\t\treturn matches[0]
+
+\traise DatabaseLoadError(f'No {desc} files found in directory {directory}', directory=directory)
+
+
+"""
+_FIND_PER_EXT = _EXT_CONSTS + """def _find_one(directory, extensions, desc):
+\tfiles = sorted(directory.iterdir())
+
+\tfor ext in extensions:
+\t\tmatches = [f for f in files if f.suffix == ext]
+\t\tif len(matches) > 1:
+\t\t\traise DatabaseLoadError(f'Multiple {desc} files found in directory {directory}', directory=directory)
+\t\tif matches:
+\t\t\treturn matches[0]
+
+\traise DatabaseLoadError(f'No {desc} files found in directory {directory}', directory=directory)
+
+
+"""
 _LOCATE_OLD = """\t\tdef check_single_match(matches, desc: str):
 \t\t\tn = len(matches)
 \t\t\tif n != 1:
@@ -1981,4 +2055,11 @@ VARIANTS = [
       also=((_R, _LOCATE_DECO, _OPEN_STATIC + _LOCATE_DECO), (_R, "session, gset = load_genomeset(genomes_file)", "gset, session = cls.open_genomeset(genomes_file)"))),
     V('moved load_genomeset: opens the signatures path', 'B', _R, _LOADSET_OLD, _LOADSET_ALIAS, 'R6',
       also=((_R, _LOCATE_DECO, _OPEN_STATIC + _LOCATE_DECO), (_R, "session, gset = load_genomeset(genomes_file)", "session, gset = cls.open_genomeset(signatures_file)"))),
+    # ---- fourth pass: a bug hidden inside a welcome-looking extraction (seeded C04d)
+    V('E: single-file helper, extensions pooled, at most one + non-empty', 'E', _R, _LOCATE_OLD, _FIND_CALLS, also=((_R, _LOADSET_DEF, _FIND_POOLED + _LOADSET_DEF),)),
+    V('single-file helper checks ONE extension at a time and returns at the first hit (seeded C04d)', 'B', _R, _LOCATE_OLD, _FIND_CALLS, 'R5', also=((_R, _LOADSET_DEF, _FIND_PER_EXT + _LOADSET_DEF),)),
+    V('pooled helper: the no-file case is not refused before taking', 'B', _R, _LOCATE_OLD, _FIND_CALLS, 'R5',
+      also=((_R, _LOADSET_DEF, _FIND_POOLED.replace("\tif matches:\n\t\treturn matches[0]\n", "\treturn matches[0]\n") + _LOADSET_DEF),)),
+    V('pooled helper: several files tolerated', 'B', _R, _LOCATE_OLD, _FIND_CALLS, 'R5',
+      also=((_R, _LOADSET_DEF, _FIND_POOLED.replace("if len(matches) > 1:", "if len(matches) > 2:") + _LOADSET_DEF),)),
 ]
